@@ -1,6 +1,7 @@
 package main
 
 import (
+	"bytes"
 	"context"
 	"crypto/ecdsa"
 	"crypto/elliptic"
@@ -72,12 +73,21 @@ type polCase struct {
 	// cluster mode (C27): holders of the object; HEAD answers and stores go through it
 	cluster map[int]bool
 	down    map[int]bool
+	maintc  map[int]bool // nodes in the MAINTENANCE state of the network map (cluster mode)
+	// op `task`: the context of HandleTask is cancelled while the object is being sent to node cutAt
+	cutAt     int
+	cutStored bool // ... after the node stored the object and answered
+	cancel    context.CancelFunc
+	// op `recreate`: payloads of the parts of the object (what a re-created part must carry)
+	wantParts [][]byte
+	badParts  []string
 }
 
 type polTask struct {
 	q     int
 	nodes []int
 	done  []int
+	part  int // index of the EC part carried by the task itself, -1 when the task carries no object
 }
 
 type polFixture struct {
@@ -104,7 +114,7 @@ type polClient struct {
 
 var errPolRefused = errors.New("remote node refused the object")
 
-func (c polClient) ReplicateObject(_ context.Context, id oid.ID, src io.ReadSeeker, _ neofscrypto.Signer, _ bool) (*neofscrypto.Signature, error) {
+func (c polClient) ReplicateObject(ctx context.Context, id oid.ID, src io.ReadSeeker, _ neofscrypto.Signer, _ bool) (*neofscrypto.Signature, error) {
 	// the replicator shares one stream between the nodes of a task (client.DemuxReplicatedObject)
 	if _, err := src.Seek(0, io.SeekStart); err != nil {
 		return nil, err
@@ -125,7 +135,14 @@ func (c polClient) ReplicateObject(_ context.Context, id oid.ID, src io.ReadSeek
 	defer cs.mtx.Unlock()
 	ok := c.id >= 1 && c.id <= len(cs.repl) && cs.repl[c.id-1] == '1'
 	if cs.cluster != nil {
-		ok = !cs.down[c.id]
+		ok = !cs.down[c.id] && !cs.maintc[c.id]
+	}
+	if cs.cutAt == c.id && cs.cancel != nil {
+		// the caller gives up (shutdown) while this transfer is in flight
+		cs.cancel()
+		if !cs.cutStored {
+			return nil, fmt.Errorf("transfer interrupted: %w", ctx.Err())
+		}
 	}
 	if !ok {
 		return nil, errPolRefused
@@ -157,9 +174,19 @@ func (r polResult) SubmitSuccessfulReplication(n netmap.NodeInfo) {
 }
 
 func (r polRecorder) HandleTask(ctx context.Context, task replicator.Task, res replicator.TaskResult) {
-	t := polTask{q: int(task.VerifCopiesNumber())}
+	t := polTask{q: int(task.VerifCopiesNumber()), part: -1}
 	for _, n := range task.Nodes() {
 		t.nodes = append(t.nodes, polNodeID(n))
+	}
+	if obj := task.VerifObject(); obj != nil {
+		t.part = policer.VerifECPartIndex(*obj)
+		cs := r.f.cur
+		cs.mtx.Lock()
+		if t.part < 0 || t.part >= len(cs.wantParts) || !bytes.Equal(obj.Payload(), cs.wantParts[t.part]) ||
+			obj.GetID() != task.VerifObjectAddress().Object() {
+			cs.badParts = append(cs.badParts, fmt.Sprintf("part %d", t.part))
+		}
+		cs.mtx.Unlock()
 	}
 	r.f.repl.HandleTask(ctx, task, polResult{inner: res, t: &t})
 	cs := r.f.cur
@@ -187,8 +214,12 @@ func polSetup() *polFixture {
 	if err != nil {
 		panic(err)
 	}
+	lg := zap.NewNop()
+	if os.Getenv("VH_POLICER_LOG") != "" {
+		lg, _ = zap.NewDevelopment()
+	}
 	f.repl = replicator.New(
-		replicator.WithLogger(zap.NewNop()),
+		replicator.WithLogger(lg),
 		replicator.WithPutTimeout(5*time.Second),
 		replicator.WithLocalStorage(f.eng),
 		replicator.WithLocalNodeKey(polLocalKey{f}),
@@ -397,6 +428,8 @@ func polRunPass(f *polFixture, in polPassIn, cs *polCase) polPassOut {
 			switch {
 			case cs.down[id]:
 				a = 'e'
+			case cs.maintc[id]:
+				a = 'm'
 			case cs.cluster[id]:
 				a = 'h'
 			default:
@@ -486,6 +519,7 @@ func polContains(xs []int, x int) bool {
 func polOracle(c *runCtx, in polPassIn, out polPassOut, desc string) {
 	cs := out.cs
 	polReplicatorOracle(c, in.me, cs, desc)
+	polQuantityOracle(c, in, cs, desc)
 
 	redundant := 0
 	for _, r := range out.deleted {
@@ -635,12 +669,18 @@ func (cl *polCluster) covered(i int) bool {
 }
 
 // polRound lets the holders of `order` run the real policer pass one after another against the shared state.
-func polRound(c *runCtx, f *polFixture, cl *polCluster, order, down []int, line string) string {
+func polRound(c *runCtx, f *polFixture, cl *polCluster, order, down, maint []int, line string) string {
 	dn := map[int]bool{}
 	for _, d := range down {
 		dn[d] = true
 	}
-	isFull := len(down) == 0
+	mt := map[int]bool{}
+	for _, m := range maint {
+		mt[m] = true
+	}
+	// the convergence sentences of the property are about a stable network map with reachable nodes: nobody down,
+	// nobody under maintenance
+	isFull := len(down) == 0 && len(maint) == 0
 	for n := range cl.nodes {
 		isFull = isFull && polContains(order, n)
 	}
@@ -653,15 +693,15 @@ func polRound(c *runCtx, f *polFixture, cl *polCluster, order, down []int, line 
 	tasks, realTasks := 0, 0
 	var drops []int
 	for _, me := range order {
-		if !cl.hold[me] || dn[me] {
+		if !cl.hold[me] || dn[me] || mt[me] {
 			continue
 		}
 		var before []bool
 		for i := range cl.rep {
 			before = append(before, cl.covered(i))
 		}
-		cs := &polCase{me: me, headOK: map[int]bool{}, stored: map[int]bool{}, cluster: cl.hold, down: dn}
-		in := polPassIn{typ: cl.typ, net: "ok", rep: cl.rep, lists: cl.lists, me: me, innm: true, stored: true, shards: 1}
+		cs := &polCase{me: me, headOK: map[int]bool{}, stored: map[int]bool{}, cluster: cl.hold, down: dn, maintc: mt}
+		in := polPassIn{typ: cl.typ, net: "ok", rep: cl.rep, lists: cl.lists, me: me, innm: true, maint: mt, stored: true, shards: 1}
 		out := polRunPass(f, in, cs)
 		if len(out.deleted) > 0 {
 			delete(cl.hold, me)
@@ -677,6 +717,7 @@ func polRound(c *runCtx, f *polFixture, cl *polCluster, order, down []int, line 
 		}
 		desc := fmt.Sprintf("%s | %s | pass of node %d: %s -> holders %v", cl.setup, line, me, polShowOut(out), cl.holders())
 		polReplicatorOracle(c, me, cs, desc)
+		polQuantityOracle(c, in, cs, desc)
 		for i := range cl.rep {
 			// the policer never takes a rule below its required number of copies
 			c.oracle("pass-keeps-covered-rule-covered", !before[i] || cl.covered(i), desc)
@@ -789,7 +830,7 @@ func policerExec(c *runCtx, ops []string) {
 			}
 			c.emit(line, "=> ok hold="+joinInts(cl.holders()))
 		case "round":
-			var order, down []int
+			var order, down, maint []int
 			ok := cl != nil
 			func() {
 				defer func() {
@@ -803,13 +844,16 @@ func policerExec(c *runCtx, ops []string) {
 				if _, has := o.kv["down"]; !has {
 					ok = false
 				}
-				order, down = o.ints("order"), o.ints("down")
-				for _, x := range append(append([]int(nil), order...), down...) {
+				if _, has := o.kv["maint"]; !has {
+					ok = false
+				}
+				order, down, maint = o.ints("order"), o.ints("down"), o.ints("maint")
+				for _, x := range append(append(append([]int(nil), order...), down...), maint...) {
 					ok = ok && x >= 0
 				}
 			}()
 			if !ok {
-				if cl == nil && parseOpOK(o, "order", "down") {
+				if cl == nil && parseOpOK(o, "order", "down", "maint") {
 					// a round without a cluster: the model runs it on the empty cluster
 					c.emit(line, "=> ok hold=- tasks=0 drops=-")
 					continue
@@ -817,10 +861,14 @@ func policerExec(c *runCtx, ops []string) {
 				c.emit(line, "=> bad-op")
 				continue
 			}
-			obs := polRound(c, f, cl, order, down, line)
+			obs := polRound(c, f, cl, order, down, maint, line)
 			c.emit(line, obs)
 			cl.rounds = append(cl.rounds, line+" "+obs)
 			c.nontrivial(cl.setup + strings.Join(cl.rounds, "|"))
+		case "task":
+			polExecTask(c, f, o, line)
+		case "recreate":
+			polExecRecreate(c, f, o, line)
 		default:
 			c.emit(line, "=> bad-op")
 		}
@@ -913,7 +961,7 @@ func policerClusterGen(c *runCtx, run func([]string)) {
 		}
 		ops := []string{fmt.Sprintf("policer cluster typ=%s rep=%s lists=%s hold=%s", typ, joinInts(rep), strings.Join(ls, "/"), joinInts(hold))}
 		for u := c.rng.IntN(4); u > 0; u-- {
-			var order, down []int
+			var order, down, maint []int
 			for _, x := range c.rng.Perm(n + 1) {
 				if c.rng.IntN(3) != 0 {
 					order = append(order, x+1)
@@ -924,25 +972,48 @@ func policerClusterGen(c *runCtx, run func([]string)) {
 					down = append(down, x)
 				}
 			}
-			ops = append(ops, fmt.Sprintf("policer round order=%s down=%s", joinInts(order), joinInts(down)))
+			for x := 1; x <= n+1; x++ {
+				if c.rng.IntN(6) == 0 {
+					maint = append(maint, x)
+				}
+			}
+			ops = append(ops, fmt.Sprintf("policer round order=%s down=%s maint=%s", joinInts(order), joinInts(down), joinInts(maint)))
+		}
+		if c.rng.IntN(3) == 0 {
+			// cycles of a network in which everybody is reachable except ONE node that stays in the MAINTENANCE state
+			// of the network map (any node: primary, backup, outsider)
+			m := 1 + c.rng.IntN(n+1)
+			for s := 0; s < 2; s++ {
+				var order []int
+				for _, x := range c.rng.Perm(n + 1) {
+					order = append(order, x+1)
+				}
+				ops = append(ops, fmt.Sprintf("policer round order=%s down=- maint=%d", joinInts(order), m))
+			}
 		}
 		for s := 0; s < polConvergeRounds+2; s++ {
 			var order []int
 			for _, x := range c.rng.Perm(n + 1) {
 				order = append(order, x+1)
 			}
-			ops = append(ops, fmt.Sprintf("policer round order=%s down=-", joinInts(order)))
+			ops = append(ops, fmt.Sprintf("policer round order=%s down=- maint=-", joinInts(order)))
 		}
 		run(ops)
 	}
-	run([]string{"policer round order=1,2 down=-", "policer cluster typ=REG rep=1,1 lists=1.2 hold=1", "policer cluster typ=REG rep=1 lists=1.2 hold=0",
-		"policer cluster typ=REG rep=1 lists=1.2", "policer round order=1"})
+	run([]string{"policer round order=1,2 down=- maint=-", "policer cluster typ=REG rep=1,1 lists=1.2 hold=1", "policer cluster typ=REG rep=1 lists=1.2 hold=0",
+		"policer cluster typ=REG rep=1 lists=1.2", "policer round order=1", "policer round order=1 down=-"})
 }
 
 func policerGen(c *runCtx, run func([]string)) {
 	defer polTeardown()
 	if c.prop == "C27" {
 		policerClusterGen(c, run)
+		policerMaintGen(c, run)
+		policerTaskGen(c, run)
+		return
+	}
+	if c.prop == "C22" {
+		policerRecreateGen(c, run)
 		return
 	}
 	var ops []string
